@@ -540,6 +540,7 @@ func (sn snapshot) coq() string {
 type holding struct {
 	liquid, staked, credit *big.Int
 	selected               int
+	inexact                int64 // delegations at validators whose exchange rate is not one
 }
 
 func (w *World) acctID(a sdk.AccAddress) int {
@@ -560,6 +561,11 @@ func (w *World) holdings() []holding {
 			v, err := w.s.Stakingkeeper.GetValidator(w.ctx, va)
 			if err == nil {
 				h.staked.Add(h.staked, v.TokensFromShares(d.Shares).TruncateInt().BigInt())
+				// at a validator whose exchange rate is not one (it was slashed) the whole-token value of a delegation is a
+				// rounded-down fraction: somebody else's (un)delegation there can move it by one unit
+				if !v.DelegatorShares.Equal(math.LegacyNewDecFromInt(v.Tokens)) {
+					h.inexact++
+				}
 			}
 			return false
 		})
